@@ -15,6 +15,7 @@ from smpl_extract.akai.partition import PartitionAdapter, InvalidPartition
 from smpl_extract.util.stream import StreamOffset, StreamWrapper
 from smpl_extract.util.fat import FileStream
 from vf.absfile import mkfile, AbsFile
+import z3
 from vf.util import conc
 from vf.props import c07, c14
 
@@ -171,6 +172,174 @@ META = {
 }
 
 
+# ------------------------------------------------------------------ C13.drain: exporting a sample whose header points are ARBITRARY ends, and emits no more than the chain holds
+def h_drain_roland(mode: int, c0: int, c1: int, start: int, s_end: int, r_end: int) -> int:
+    """
+    pre: 0 <= mode <= 7
+    pre: 2 <= c0 <= 30 and 2 <= c1 <= 30 and c0 != c1
+    pre: 0 <= start < 2**24 and 0 <= s_end < 2**24 and 0 <= r_end < 2**24
+    post: _ == 1
+    """
+    CNT[0] += 1
+    from vf.props import c02
+    from vf.absfile import mkfile
+    from smpl_extract.roland.s7xx.fat import RolandFile
+    from smpl_extract.roland.s7xx.sample_file import SampleFile
+    from smpl_extract.roland.s7xx.sample_entry import SampleParamLoopPoint as P
+    from smpl_extract.roland.s7xx.data_types import RolandLoopMode
+    from smpl_extract.util.stream import StreamOffset
+    from smpl_extract.generalized.wav import WavSampleAdapter
+    from smpl_extract.formats.wav import RiffStruct
+    c02._shim()
+    mode = conc(mode, 0, 7)
+    LR, DATA0 = c02.LR, c02.DATA0
+    f = mkfile(DATA0 + 32 * LR)
+    data = StreamOffset(f, 32 * LR, DATA0)
+    rf = RolandFile(data, [c0, c1])
+    lm = RolandLoopMode(mode) if mode <= 6 else 9
+    sf = SampleFile(loop_mode=lm, start_sample=P(0, start), sustain_loop_start=P(0, 0), sustain_loop_end=P(0, s_end),
+                    release_loop_start=P(0, 0), release_loop_end=P(0, r_end), name="x", _data_stream=rf, _path=["v", "p", "x"])
+    total = blocks = 0
+    try:
+        g = sf.to_generalized()
+        cont = WavSampleAdapter(RiffStruct)._encode(g, {}, "")
+        for blk in cont["data"]["chunks"][-1]["data"]:
+            total += len(blk)
+            blocks += 1
+            # unwinding assertion: the chain holds 2 clusters; an export that has produced more than that (or an empty block without
+            # stopping) is re-reading and would go on for ever
+            if total > 2 * LR or len(blk) == 0 or blocks > 2 * LR // 2 + 2:
+                return 0
+    except Exception:
+        return 1                                    # "finishes with an error" is allowed
+    return 1
+
+
+# ------------------------------------------------------------------ C13.regex: no live pattern has an exponentially ambiguous starred group
+def _live_patterns():
+    """every compiled pattern reachable as a module global or class attribute of the package (what the code under analysis really uses)"""
+    import importlib
+    import pkgutil
+    import re
+    import smpl_extract
+    out = {}
+    for mi in pkgutil.walk_packages(smpl_extract.__path__, "smpl_extract."):
+        if mi.name.endswith(("__main__",)) or ".filters." in mi.name:
+            continue
+        try:
+            mod = importlib.import_module(mi.name)
+        except Exception:
+            continue
+        for k, v in vars(mod).items():
+            if isinstance(v, re.Pattern):
+                out[f"{mi.name}.{k}"] = v
+            elif isinstance(v, type) and v.__module__ == mi.name:
+                for kk, vv in vars(v).items():
+                    if isinstance(vv, re.Pattern):
+                        out[f"{mi.name}.{v.__name__}.{kk}"] = vv
+    return out
+
+
+def _stars(items, acc):
+    from vf.symx import K
+    for op, av in items:
+        if op in (K.MAX_REPEAT, K.MIN_REPEAT):
+            lo, hi, body = av
+            body = list(body)
+            if hi >= 2:
+                acc.append(body)
+            _stars(body, acc)
+        elif op is K.SUBPATTERN:
+            _stars(list(av[3]), acc)
+        elif op is K.BRANCH:
+            for alt in av[1]:
+                _stars(list(alt), acc)
+        elif op in (K.ASSERT, K.ASSERT_NOT):
+            _stars(list(av[1]), acc)
+    return acc
+
+
+_REPLAY = r"""
+import re, sys, json
+pat, flags, w = json.loads(sys.argv[1])
+p = re.compile(pat, flags)
+for k in (24, 32):
+    for pre in ("", "A"):
+        for suf in ("\x00", "A", "!", "\n\n"):
+            s = pre + w * k + suf
+            p.match(s); p.search(s); p.fullmatch(s)
+print("finished")
+"""
+
+
+def p_regex(twin=False, timeout=120, exclude=(), only=None, replay=None, cap=4):
+    import itertools
+    import json
+    import subprocess
+    import sys
+    import time
+    from vf import symx, sximg
+    t0 = time.time()
+    pats = _live_patterns()
+    out = {"paths": 0, "queries": 0, "solver_s": 0.0, "messages": []}
+    found = None
+    nstars = 0
+    for name, real in sorted(pats.items()):
+        sp = symx.SymPattern(real.pattern, real.flags & ~32)
+        for body in _stars(list(sp.tree), []):
+            nstars += 1
+            s, cons = sximg.sym_str("w", cap, minlen=1, maxcp=128)
+            # all ways in which ONE iteration of the body consumes [0, n) and all ways in which TWO non-empty iterations do
+            ways = []
+            try:
+                for (g, j, _c) in sp._seq(s, body, 0, 0, False):
+                    if isinstance(j, int) and j > 0:
+                        ways.append(z3.And(g, s.n == j))
+                        for (g2, j2, _c2) in sp._seq(s, body, 0, j, False):
+                            if isinstance(j2, int) and j2 > j:
+                                ways.append(z3.And(g, g2, s.n == j2))
+            except NotImplementedError as e:
+                out["messages"].append({"state": "UNSUPPORTED", "message": f"{name}: {e!r}"})
+                out.update(verdict="inconclusive")
+                return out
+            out["paths"] += len(ways)
+            sol = z3.Solver()
+            sol.set("timeout", int(timeout * 1000))
+            sol.add(cons)
+            sol.add(z3.Or([z3.And(a, b) for a, b in itertools.combinations(ways, 2)] or [z3.BoolVal(False)]))
+            tq = time.time()
+            r = sol.check()
+            out["queries"] += 1
+            out["solver_s"] += time.time() - tq
+            if str(r) == "unknown":
+                out.update(verdict="inconclusive")
+                out["messages"].append({"state": "UNKNOWN", "message": name})
+                return out
+            if str(r) == "sat" and found is None:
+                m = sol.model()
+                n = m.eval(s.n, model_completion=True).as_long() if not isinstance(s.n, int) else s.n
+                w = "".join(chr(m.eval(c, model_completion=True).as_long()) for c in s.c[:n])
+                found = {"pattern": name, "regex": real.pattern, "flags": real.flags, "string_with_two_parses_of_the_repeated_group": w}
+    out["solver_s"] = round(out["solver_s"], 3)
+    out["wall_s"] = round(time.time() - t0, 2)
+    if twin:
+        out.update(verdict="refuted" if nstars else "discharged", reproduced=True, cex={"patterns": len(pats), "repeated_groups": nstars}, cex_message="witness")
+        return out
+    if found is None:
+        out.update(verdict="discharged")
+        return out
+    # replay on the real engine: ~100 characters must not take seconds
+    try:
+        subprocess.run([sys.executable, "-c", _REPLAY, json.dumps([found["regex"], found["flags"], found["string_with_two_parses_of_the_repeated_group"]])],
+                       timeout=20, capture_output=True)
+        rep = False
+    except subprocess.TimeoutExpired:
+        rep = True
+    found["replay"] = "real re engine did not finish 48 calls on inputs of <= 130 characters within 20 s" if rep else "real engine finished quickly"
+    out.update(verdict="refuted", cex=found, cex_message=repr(found)[:600], reproduced=rep, replay={"reproduced": rep})
+    return out
+
+
 def obligations(tier, seed):
     q = tier == "quick"
     T = 170 if q else 900
@@ -194,6 +363,11 @@ def obligations(tier, seed):
     for kind in (0, 1):
         obs.append(ob(f"C13.read/kind={kind}", "h_readall", [f"kind == {kind}"], "view length, buffer_length, window offset / sectors", "length <= 3 buffers + 5",
                       stubs=["AbsFile/Spans"]))
+    obs.append(dict(name="C13.regex", engine="P", module="vf.props.c13", func="p_regex", params={"cap": 4 if q else 6}, timeout=120, runs=RUNS,
+                    sym="a string of <= 4 (6) characters per repeated group of every live pattern", bound="two parses as one or two iterations of the group", stubs=["SymPattern"]))
+    for mode in range(8):
+        obs.append(ob(f"C13.drain/roland/mode={mode}", "h_drain_roland", [f"mode == {mode}"], "cluster pair, start point, sustain end, release end (each 0..2^24-1, NOT assumed ordered)",
+                      "2-cluster chain; emitted bytes <= chain bytes as unwinding assertion", stubs=["AbsFile/Spans", "NpShim"]))
     # shared kernels: fuel assertions of the allocation-table decoders and the directory table loop
     for o in c07.obligations(tier, seed):
         if o["name"].startswith(("C07.akai/n=3", "C07.roland/m=3", "C07.path")) or (not q and o["name"].startswith(("C07.akai/n=4", "C07.roland/m=4"))):
